@@ -68,8 +68,8 @@ CHECKS = {
         note="Trusts: Lean kernel; tools/extract; raft commit semantics; retries arrive after the first copy was applied (property's quantifier).",
     ),
     "C11": dict(
-        technique="Lean 4 theorems about the session-authentication model (sound: accepted => non-empty secret equal to exactly that session's; pseudo-clients unreachable; refusal => no proposal), route/guard tables regenerated from DispatchPublic/DispatchPrivate; exhaustive request matrix on the real handlers compared with the model's decisions",
-        text="Proved: api.session accepts only a non-empty header equal to the stored secret of exactly the named client session; missing/empty/other-session secrets are refused and a refused POST/DELETE proposes nothing; every public route except session creation is dominated by the session check and the private route table is reachable only after the basic-auth test (regenerated from the source on every run). The full matrix routes x credentials x session states is executed against the real handlers: refused requests answer non-200, append no entry and leave the state dump unchanged.",
+        technique="Lean 4 theorems about the session-authentication model (sound: accepted => non-empty secret equal to exactly that session's; pseudo-clients unreachable; refusal => no proposal), route/guard tables regenerated from DispatchPublic/DispatchPrivate, the routes the listening http.Server can reach regenerated from package main and the binary's import closure (ServeMux model: everything outside /robustirc/v1/ goes to the password check); exhaustive request matrix on the real handlers compared with the model's decisions; probe of three real robustirc processes",
+        text="Proved: api.session accepts only a non-empty header equal to the stored secret of exactly the named client session; missing/empty/other-session secrets are refused and a refused POST/DELETE proposes nothing; every public route except session creation is dominated by the session check and the private route table is reachable only after the basic-auth test (regenerated from the source on every run). The full matrix routes x credentials x session states is executed against the real handlers: refused requests answer non-200, append no entry and leave the state dump unchanged. The routes reachable from the listening server are exactly the two dispatchers (C11_served_routes, C11_mux_dispatch; before fix 942dbd4 the default mux also served /debug/pprof/* and /debug/vars without the password), and on every run three real robustirc processes are probed: documented private routes, every DefaultServeMux registration in the binary and arbitrary paths answer 401 without the network password.",
         design_ref="DESIGN.md §4 C11",
         note="Trusts: Lean kernel; tools/extract; net/http routing and BasicAuth; secrets are unguessable.",
     ),
